@@ -766,7 +766,7 @@ impl Session {
 //@@ param writer : &mut ChanSender<SessionFrame>
 //@@ subst `self.incoming_channel.map(Into::into)` => `self.incoming_channel.map(|c: IncomingChannel| -> (o: u16) ensures o == c.0 { c.0 })` rule=R17
 //@@ subst `.clone().map(Into::into)` => `.clone()` rule=R16
-//@@ subst `|_v0|` => `|_v0: ChanSendError|` rule=R5
+//@@ subst `|_v0|` => `|_v0: ChanSendError|` rule=optional-R5
 //@@ spec
     ensures
         *final(self) == (Session { local_state: final(self).local_state, ..*old(self) }),          // [C13.session.begin-frame-only-state] only the state changes
@@ -791,7 +791,7 @@ impl Session {
 
 //@@ fn file=fe2o3-amqp/src/session/mod.rs impl=`impl endpoint::Session for Session` name=send_end
 //@@ param writer : &mut ChanSender<SessionFrame>
-//@@ subst `|_v0|` => `|_v0: ChanSendError|` rule=R5
+//@@ subst `|_v0|` => `|_v0: ChanSendError|` rule=optional-R5
 //@@ spec
     ensures
         *final(self) == (Session { local_state: final(self).local_state, ..*old(self) }),          // [C13.session.end-frame-only-state]
@@ -849,8 +849,8 @@ impl Session {
 
 //@@ fn file=fe2o3-amqp/src/session/mod.rs impl=`impl endpoint::Session for Session` name=on_incoming_disposition
 //@@ subst `&delivery_ids[..]` => `delivery_ids.as_slice()` rule=R22
-//@@ subst `let mut delivery_ids = Vec::new();` => `let mut delivery_ids: Vec<u32> = Vec::new();` rule=R5
-//@@ subst `let mut dispositions = Vec::with_capacity(` => `let mut dispositions: Vec<Disposition> = Vec::with_capacity(` rule=R5
+//@@ subst `let mut delivery_ids = Vec::new();` => `let mut delivery_ids: Vec<u32> = Vec::new();` rule=optional-R5
+//@@ subst `let mut dispositions = Vec::with_capacity(` => `let mut dispositions: Vec<Disposition> = Vec::with_capacity(` rule=optional-R5
 //@@ spec
     ensures
         r is Ok,                                                                                     // [C15.disposition.total] any disposition (unknown ids, huge ranges, last < first) is handled without error or panic
@@ -1002,7 +1002,7 @@ impl Session {
 
 //@@ fn file=fe2o3-amqp/src/session/mod.rs impl=`impl endpoint::Session for Session` name=on_incoming_attach
 //@@ subst `InputHandle::from(` => `handle_to_input(` rule=R16
-//@@ subst `|_v0|` => `|_v0: ChanSendError|` rule=R5
+//@@ subst `|_v0|` => `|_v0: ChanSendError|` rule=optional-R5
 //@@ spec
     ensures
         !old(self).link_by_name@.contains_key(attach.name)
